@@ -65,6 +65,8 @@ CASES = [
     ('accumulate_in_try', [('xs', MLI, _ilist)], I), ('or_default', [('a', I, _ints), ('b', I, _ints)], I),
     ('split_once', [('s', S, lambda r: r.choice(['', ':', 'a:b', 'Pair:A-B=1', 'a:b:c', 'ab', ':x', 'x:', '::']))], I),
     ('split_once_unpack', [('s', S, lambda r: r.choice(['a=b', 'k=v=w', '=', 'abc', '', '=x'])), ('k', S, lambda r: r.choice(['a', 'k', '']))], I),
+    ('index_then_slice', [('s', S, lambda r: r.choice(['a:b=c', 'T:t:x=0 1', 'S=a:k=v', 'a:b', 'ab=c', '', ':=', 'x:=:=']))], I),
+    ('rsplit_once', [('s', S, lambda r: r.choice(['', ':', 'a:b', 'T:t:x', 'ab', ':x', 'x:', '::']))], I),
     ('subscript_optional', [('xs', T.Opt(LI), lambda r: r.choice([None, [], [4], [2, 9]]))], I),
 ]
 SAFETY_KINDS = ('index', 'unpack', 'div', 'not-none', 'call-pre', 'zero')
